@@ -303,6 +303,15 @@ Definition cast_arr (v : value) : res (list nv) :=
   | _ => Ok [("", v)]
   end.
 
+(* an error that comes out of a nested value gets the name of the setting it came through in
+   front of its path: innermost sites raise with the empty path, every enclosing list entry,
+   map entry and struct field adds its (stored) name *)
+Definition in_seg {A} (seg : string) (r : res A) : res A :=
+  match r with
+  | Err e p => Err e (if String.eqb seg "" then p else if String.eqb p "" then seg else seg +++ "." +++ p)
+  | _ => r
+  end.
+
 Definition fieldopts := (ropts * N * list vtag)%type.    (* options, tag handling, validators *)
 
 Definition config_handling (fo : fieldopts) : N :=
@@ -471,7 +480,7 @@ Section Reify.
                 | x :: r =>
                   y <- (if (start <=? idx)%nat && (idx <? start + List.length arr)%nat
                         then match nth_opt arr (idx - start) with
-                             | Some (_, v) => reify_merge_value f fo e x v
+                             | Some (nm, v) => in_seg nm (reify_merge_value f fo e x v)
                              | None => Ok x
                              end
                         else (_ <- rec_validate (r_vo o) e x [] ;; Ok x)) ;;
@@ -495,11 +504,12 @@ Section Reify.
         m <- (fix go (m : list (string * gv)) (l : list (string * (string * value))) {struct l} : res (list (string * gv)) :=
                 match l with
                 | [] => Ok m
-                | (k, (_, v)) :: r =>
-                  x <- match dict_get k m with
-                       | None => reify_value f (o, 0%N, []) e v
-                       | Some oldv => reify_merge_value f (o, 0%N, []) e oldv v
-                       end ;;
+                | (k, (nm, v)) :: r =>
+                  x <- in_seg nm
+                         match dict_get k m with
+                         | None => reify_value f (o, 0%N, []) e v
+                         | Some oldv => reify_merge_value f (o, 0%N, []) e oldv v
+                         end ;;
                   (* a nil interface value is not stored *)
                   go (match x with GIfaceNil => m | _ => dict_set k x m end) r
                 end) m0 d ;;
@@ -564,7 +574,8 @@ Section Reify.
                                   reify_merge_value f (o', th, vts) ft x (match v with Some n => n | None => VNil end)
                                 | _ => _ <- rec_validate (r_vo o) ft x vts ;; Ok x
                                 end
-                              else reify_merge_value f (o', th, vts) ft x (match v with Some n => n | None => VNil end)) ;;
+                              else in_seg (match get_path "" p cfg with Ok (Some (pth, _)) => pth | _ => "" end)
+                                          (reify_merge_value f (o', th, vts) ft x (match v with Some n => n | None => VNil end))) ;;
                       rest <- go fr vr ;;
                       Ok (y :: rest)
                     end
